@@ -76,9 +76,10 @@ namespace lang
         {
         }
 
-        constexpr fixed_vector(fixed_vector<value_type>&& v)
-        : capacity_(v.capacity_), data_(std::move(v.data_))
+        constexpr fixed_vector(fixed_vector<value_type>&& v) : fixed_vector(v.capacity_)
         {
+            std::swap(size_, v.size_);
+            std::swap(data_, v.data_);
         }
 
         constexpr fixed_vector operator=(const fixed_vector& v)
